@@ -2726,8 +2726,10 @@ def _letfn_to_py_ast(ctx: GeneratorContext, node: LetFn) -> GeneratedPyAST[ast.e
         binding_names = []
         for binding in node.bindings:
             binding_name = genname(munge(binding.name))
+            # The functions of a `letfn*` may refer to each other before they are all
+            # assigned, so (unlike `let*` locals) they are never captured by value
             ctx.symbol_table.new_symbol(
-                sym.symbol(binding.name), binding_name, LocalType.LET
+                sym.symbol(binding.name), binding_name, LocalType.LETFN
             )
             binding_names.append((binding_name, binding))
 
